@@ -620,6 +620,17 @@ def finding_fails(ctx, f):
     return False
 
 
+def _single_call_invariant(c):
+    """the pair (H, rotated H) of a failed batched invariance check, re-evaluated as single compiled calls: invariant within tolerance?"""
+    import jax.numpy as np
+    md = models()[c['model']]
+    H, Q = c['H'], c['Q']
+    Hx = rotL(Q, H) if c['check'] == 'objectivity' else rotR(Q, H)
+    e0 = float(md['jf'](np.array(H)))
+    e1 = float(md['jf'](np.array(Hx)))
+    return abs(e1 - e0) <= tol_energy(H, e0)
+
+
 def matches_finding(fl, f):
     """EIGVMAP: energy of a model that goes through eigen_sym33_unit, evaluated inside a compiled batch, at a state with two
     (numerically) equal principal stretches, off by a SMALL relative amount (<= 1e-4); anything else is a fresh violation.
@@ -635,7 +646,13 @@ def matches_finding(fl, f):
             return False
         if c['check'] == 'kirchhoff':
             return c.get('value', 1.0) <= 1e-3 * E_MOD
-        return abs(c['e1'] - c['e0']) <= 5e-2 * abs(c['e0'])
+        if abs(c['e1'] - c['e0']) <= 5e-2 * abs(c['e0']):
+            return True
+        # At small strains the same defect gives a small ABSOLUTE but large relative energy error (the strain is a difference of nearly
+        # equal powers, the batched eigenvectors are off by ~1e-3).  Such a failure is this finding only if it is demonstrably
+        # batch-specific: the very same pair of states evaluated as single compiled calls satisfies the invariance to the usual
+        # tolerance, and the absolute error is below 1e-6 of the modulus.
+        return abs(c['e1'] - c['e0']) <= 1e-6 * E_MOD and _single_call_invariant(c)
     if f['id'] == 'EIGVMAP':
         if not (c.get('batch') and c.get('model') in SPECTRAL and c.get('check') in ('objectivity', 'isotropy', 'kirchhoff')):
             return False
